@@ -94,7 +94,8 @@ def run_translator(units=None):
     ok, log = build_translator()
     if not ok:
         return False, "translator build failed:\n" + log
-    cmd = [os.path.join(BIN, "translator"), "-repo", REPO, "-out", os.path.join(THEORIES, "Gen")]
+    cmd = [os.path.join(BIN, "translator"), "-repo", REPO, "-out", os.path.join(THEORIES, "Gen"),
+           "-units", os.path.join(ROOT, "translator", "units")]
     if units:
         cmd += ["-only", ",".join(units)]
     rc, o, e = sh(cmd, timeout=120)
@@ -301,6 +302,12 @@ def build_harness(pkg, timeout=3000):
     property whose own harness no longer compiles cannot break the others."""
     os.makedirs(BIN, exist_ok=True)
     shutil.copyfile(os.path.join(REPO, "go", "go.sum"), os.path.join(HARNESS, "go.sum"))
+    # the replace directive always points at the tree under check
+    gm = os.path.join(HARNESS, "go.mod")
+    txt = open(gm).read()
+    new = re.sub(r"replace github.com/dolthub/dolt/go => \S+", "replace github.com/dolthub/dolt/go => " + os.path.join(REPO, "go"), txt)
+    if new != txt:
+        open(gm, "w").write(new)
     logs = ""
     if os.environ.get("VERIF_SINGLE_HARNESS") != "1":
         write_main(os.path.join(HARNESS, "cmd", "h", "main.go"), harness_pkgs())
